@@ -262,6 +262,9 @@ HARNESSES["c11_repro_sym2"] = lambda ctx: c11_repro(ctx, [(b"?", b"?"), (b"?", b
 
 
 def replay_c11(ctx, fl):
+    if fl.get("kind") == "c11sign":
+        ans = ctx.native.ask("sign_time")
+        return ans.startswith("late") or ans.startswith("panic"), "real crate: build_and_sign with a recording signer and source date 1600000000 -> " + ans
     owners = ",".join("%s:%s" % (u, g) for u, g in fl.get("owners", []))
     ans = ctx.native.ask("repro", owners or "-", ",".join(fl.get("dests") or []) or "-", "late" if fl.get("late") else "early")
     if fl.get("kind") == "c11panic":
@@ -474,12 +477,15 @@ def c06_strings(ctx, fields, nchars=1):
 
 
 def replay_c06(ctx, fl):
+    if fl.get("kind") == "c06v":
+        ans = ctx.native.ask("readback2", "verify_script")
+        return not ans.startswith("same"), "real crate: verify_script(..) then the %verifyscript tags of the built header -> " + ans[:120]
     if fl.get("kind") == "c06w":
         ans = ctx.native.ask("with_file_mode", str(fl.get("st_mode", 0o100644) & 0o7777), str(fl.get("perm", 0)) if fl.get("explicit") else "-")
         return not ans.startswith("same"), "real crate: with_file over a source file chmod-ed to %o%s, then get_file_entries -> %s" % (
             fl.get("st_mode", 0) & 0o7777, (" with .mode(%o)" % (0o100000 | fl.get("perm", 0))) if fl.get("explicit") else "", ans[:100])
-    if fl.get("kind") in ("c06s", "c06d", "c06f"):
-        which = {"c06s": "scriptlets_prog" if fl.get("with_prog") else "scriptlets_plain", "c06d": "deps", "c06f": "files"}[fl["kind"]]
+    if fl.get("kind") in ("c06s", "c06d", "c06f", "c06c"):
+        which = {"c06s": "scriptlets_prog" if fl.get("with_prog") else "scriptlets_plain", "c06d": "deps", "c06f": "files", "c06c": "changelog"}[fl["kind"]]
         ans = ctx.native.ask("readback2", which)
         return not ans.startswith("same"), "real crate: %s set through the public API and read back -> %s" % (which, ans[:160])
     ans = ctx.native.ask("readback", fl["field"], fl.get("value") or "-")
@@ -811,3 +817,149 @@ def c06_with_file(ctx, explicit_mode):
 
 HARNESSES["c06_with_file_inherit"] = lambda ctx: c06_with_file(ctx, False)
 HARNESSES["c06_with_file_explicit"] = lambda ctx: c06_with_file(ctx, True)
+
+
+# ---------------------------------------------------------------------------------------------------------
+# C11: build_and_sign with a stub signer (deterministic: the signature is a fixed function of nothing but its inputs' length;
+# the time stamp it is handed is recorded)
+# ---------------------------------------------------------------------------------------------------------
+class RecSigner:
+    def __init__(self):
+        self.times = []
+
+
+@intrinsics.intr("<_ as Signing>::sign")
+def _stub_sign(ex, args, f):
+    sg = intrinsics.deref_all(ex, args[0])
+    t = intrinsics.deref_all(ex, args[2])
+    sg.times.append(t.fields[0])
+    return intrinsics2.ok(VecV([Int(c, "u8") for c in b"SIG"]))
+
+
+def c11_sign(ctx, owners):
+    ex = Exec(ctx.funcs, intrinsics.I, max_steps=4000000)
+    ctx.stats = ex.stats
+    ctx.bounds = ("build_and_sign from MIR with a stub signer (any implementation of the Signing trait that is deterministic; it records the time stamp it is given), %d file(s), symbolic source date, "
+                  "clock not before the source date: the time stamp handed to the signer is at most the source date" % len(owners))
+
+    def setup(e):
+        return dict(sd=z3.BitVec("source_date", 32), mt=[z3.BitVec("mtime_%d" % i, 32) for i in range(len(owners))], c=[z3.BitVec("content_%d" % i, 8) for i in range(len(owners))])
+
+    def body(e, inp):
+        clock_stub(e, not_before=inp["sd"])
+        b = builder_new(ctx, e)
+        b = e.call_fn(ctx.impl_fn("compression", None, "PackageBuilder"), [b, Adt("CompressionWithLevel", "None")])
+        b.fields[_field_index("PackageBuilder", "source_date")] = intrinsics3.some(Adt("Timestamp", "Timestamp", [Int(inp["sd"], "u32")]))
+        cell = Cell(b)
+        for i, (u, g) in enumerate(owners):
+            r = e.call_fn(ctx.impl_fn("add_data", None, "PackageBuilder"), [Ref(cell), VecV([Int(inp["c"][i], "u8")]), Adt("Timestamp", "Timestamp", [Int(inp["mt"][i], "u32")]), file_options(b"/d/f%d" % i, u, g)])
+            assert r.variant == "Ok"
+        sg = RecSigner()
+        # what happens to the signature afterwards (OpenPGP packet inspection to choose the legacy tag) is real OpenPGP parsing: cut here, the
+        # builder is returned unchanged; the time stamp was already handed to the signer
+        e.overrides = dict(e.overrides or {})
+        e.overrides["signatures::SignatureHeaderBuilder::add_openpgp_signature"] = lambda ex_, a, f: a[0]
+        r = e.call_fn(ctx.impl_fn("build_and_sign", None, "PackageBuilder"), [cell.v, sg])
+        return r, sg
+
+    def on_path(e, inp, out):
+        k, v = out
+        if k != "return":
+            ctx.fail("building and signing panics: %s" % (v,), "PackageBuilder::build_and_sign", kind="c11sign")
+            return
+        r, sg = v
+        ctx.cover("package built and signed", r.variant == "Ok")
+        ctx.cover("signer consulted", len(sg.times) >= 1)
+        for t in sg.times:
+            if e._check(z3.UGT(t.e, inp["sd"])):
+                ctx.fail("the signature time stamp handed to the signer is later than the source date", "PackageBuilder::build_and_sign", kind="c11sign")
+                return
+    ex.run_all(setup, body, on_path)
+
+
+HARNESSES["c11_sign_1"] = lambda ctx: c11_sign(ctx, [(b"root", b"root")])
+HARNESSES["c11_sign_2"] = lambda ctx: c11_sign(ctx, [(b"a", b"g"), (b"b", b"h")])
+
+
+def c06_changelog(ctx, n):
+    ex = Exec(ctx.funcs, intrinsics.I, max_steps=4000000)
+    ctx.stats = ex.stats
+    ctx.bounds = "%d changelog entries: author and text of 1 symbolic character, time any u32; get_changelog_entries of the built package returns them in order" % n
+
+    def setup(e):
+        return [dict(name=sym_bytes(e, "cn%d_" % i, 1, 0x21, 0x7e), text=sym_bytes(e, "ct%d_" % i, 1, 0x21, 0x7e), t=z3.BitVec("ctime_%d" % i, 32)) for i in range(n)]
+
+    def body(e, inp):
+        clock_stub(e)
+        b = builder_new(ctx, e)
+        b = e.call_fn(ctx.impl_fn("compression", None, "PackageBuilder"), [b, Adt("CompressionWithLevel", "None")])
+        for c in inp:
+            b = e.call_fn(ctx.impl_fn("add_changelog_entry", None, "PackageBuilder"), [b, Str(c["name"]), Str(c["text"]), Adt("Timestamp", "Timestamp", [Int(c["t"], "u32")])])
+        r = e.call_fn(ctx.impl_fn("build", None, "PackageBuilder"), [b])
+        meta = r.fields[0].fields[0]
+        return r, e.call_fn(ctx.impl_fn("get_changelog_entries", None, "PackageMetadata"), [Ref(Cell(meta))])
+
+    def on_path(e, inp, out):
+        k, v = out
+        if k != "return":
+            ctx.fail("building or reading back panics: %s" % (v,), "PackageBuilder::build", kind="c06c", n=n)
+            return
+        r, got = v
+        ctx.cover("package built", r.variant == "Ok")
+        if got.variant != "Ok" or len(got.fields[0].items) != n:
+            ctx.fail("get_changelog_entries() does not return the %d entries given to the builder" % n, "PackageMetadata::get_changelog_entries", kind="c06c", n=n)
+            return
+        for c, g in zip(inp, got.fields[0].items):
+            g = intrinsics.deref_all(e, g)
+            same = z3.And(_eq_str(e, g.fields[0], Str(c["name"])), g.fields[1].e == z3.ZeroExt(32, c["t"]), _eq_str(e, g.fields[2], Str(c["text"])))
+            if e._check(z3.Not(same)):
+                ctx.fail("get_changelog_entries() does not return the entries given to the builder unchanged and in order", "PackageMetadata::get_changelog_entries", kind="c06c", n=n)
+                return
+    ex.run_all(setup, body, on_path)
+
+
+for _n in (0, 1, 2, 3):
+    HARNESSES["c06_changelog_%d" % _n] = (lambda n: (lambda ctx: c06_changelog(ctx, n)))(_n)
+
+
+def c06_verify_script(ctx):
+    """verify_script has no accessor of its own: what the setter was given must be in the header under the %verifyscript tags"""
+    ex = Exec(ctx.funcs, intrinsics.I, max_steps=4000000)
+    ctx.stats = ex.stats
+    ctx.bounds = "verify_script(Scriptlet) with script text of 2 symbolic characters, flags any u32, interpreter of one 1-character word; the header of the built package read through get_entry_data_as_*"
+    from rpmvals import tag
+
+    def setup(e):
+        return dict(text=sym_bytes(e, "vt", 2, 0x20, 0x7e), flags=z3.BitVec("vflags", 32), prog=sym_bytes(e, "vp", 1, 0x21, 0x7e))
+
+    def body(e, inp):
+        clock_stub(e)
+        b = builder_new(ctx, e)
+        b = e.call_fn(ctx.impl_fn("compression", None, "PackageBuilder"), [b, Adt("CompressionWithLevel", "None")])
+        sc = Adt("Scriptlet", "Scriptlet", [string(inp["text"]), intrinsics3.some(Adt("ScriptletFlags", "bits", [Int(inp["flags"], "u32")])), intrinsics3.some(VecV([string(inp["prog"])]))])
+        b = e.call_fn(ctx.impl_fn("verify_script", None, "PackageBuilder"), [b, sc])
+        r = e.call_fn(ctx.impl_fn("build", None, "PackageBuilder"), [b])
+        return r, r.fields[0].fields[0].fields[2]
+
+    def on_path(e, inp, out):
+        k, v = out
+        if k != "return":
+            ctx.fail("building panics: %s" % (v,), "PackageBuilder::build", kind="c06v")
+            return
+        r, hdr = v
+        ctx.cover("package built", r.variant == "Ok")
+        ents = {ent.fields[0].conc(): ent.fields[1] for ent in hdr.fields[1].items}
+        t, fl_, pr = ents.get(tag("RPMTAG_VERIFYSCRIPT")), ents.get(tag("RPMTAG_VERIFYSCRIPTFLAGS")), ents.get(tag("RPMTAG_VERIFYSCRIPTPROG"))
+        bad = None
+        if t is None or t.variant != "StringTag" or e._check(z3.Not(_eq_str(e, t.fields[0], Str(inp["text"])))):
+            bad = "script text"
+        elif fl_ is None or fl_.variant != "Int32" or len(fl_.fields[0].items) != 1 or e._check(fl_.fields[0].items[0].e != inp["flags"]):
+            bad = "flags"
+        elif pr is None or pr.variant != "StringArray" or len(pr.fields[0].items) != 1 or e._check(z3.Not(_eq_str(e, pr.fields[0].items[0], Str(inp["prog"])))):
+            bad = "interpreter"
+        if bad:
+            ctx.fail("the %%verifyscript %s given to verify_script() is not in the header of the built package" % bad, "PackageBuilder::build", kind="c06v")
+    ex.run_all(setup, body, on_path)
+
+
+HARNESSES["c06_verify_script"] = c06_verify_script
